@@ -39,6 +39,9 @@ pub struct ClusterPlanC10 {
     pub probe: ClientPlan,
     /// ask the hub for the workers' cluster hashes before and after the upgrade
     pub query_hashes: bool,
+    /// virtual time the successor needs between fork and its first instruction (exec and start-up of a real process)
+    #[serde(default)]
+    pub successor_boot_delay_ns: u64,
 }
 
 pub fn generate(seed: u64, tier: Tier) -> ClusterPlanC10 {
@@ -56,7 +59,7 @@ pub fn generate(seed: u64, tier: Tier) -> ClusterPlanC10 {
         name: "probe".into(), src: "192.0.2.200:41000".parse().unwrap(), dst: *rng.pick(&base.listeners), start_ns: rng.below(3) * MS, pace: Pace::greedy(), pipeline: false,
         requests: vec![r], abort: None, sndbuf: None, think_ns: 0, linger_ns: 0, give_up_ns: 60 * SEC, wait_board: Some("upgraded".into()),
     };
-    ClusterPlanC10 { base, worker_timeout: *rng.pick(&[10u32, 10, 30]), probe, query_hashes: rng.below(2) == 0 }
+    { let query_hashes = rng.below(2) == 0; let d = *rng.pick(&[0u64, 0, 2, 20, 80]) * MS; ClusterPlanC10 { base, worker_timeout: *rng.pick(&[10u32, 10, 30]), probe, query_hashes, successor_boot_delay_ns: d } }
 }
 
 // ------------------------------------------------------------------ the CLI controller
@@ -267,7 +270,7 @@ pub fn run(p: &ClusterPlanC10, log: bool) -> (RunReport, String) {
         let mut w = World::new(b.seed, b.sched.clone());
         w.log_on = log;
         w.sndbuf_choices = b.sndbufs.clone();
-        let knobs = ClusterKnobs { worker: b.knobs.clone(), worker_timeout: p.worker_timeout, workers: 1, automatic_restart: false };
+        let knobs = ClusterKnobs { worker: b.knobs.clone(), worker_timeout: p.worker_timeout, workers: 1, automatic_restart: false, boot_delays: vec![0, p.successor_boot_delay_ns] };
         let rec = Arc::new(Mutex::new(CtlRecord::default()));
         let mut ids: (usize, usize, Vec<usize>, usize) = (0, 0, vec![], 0);
         let nclients = b.clients.len() as i64 + 1;
